@@ -34,6 +34,7 @@ REQUIRED_THEOREMS = [
     "C13_form_wire_needs_request_config", "C13_copy_independent",
     "C13_concurrent", "C13_concurrent_schedule", "C13_concurrent_progress", "C13_concurrent_needs_copy",
     "C13_gen_sharedWrites", "C13_gen_versionStoreOnCopy", "C13_gen_copyDuplicates", "C13_gen_replyConfigSites",
+    "C13_gen_configSinks",
 ]
 
 FIELDS = ("version", "content_type", "user_agent", "use_jsonclass", "serialize_method", "ignore_attribute")
@@ -368,6 +369,10 @@ def run(ctx):
                                 key="config-changed")
                 ctx.count(kind="do_POST/v%s" % version)
 
+    # ---- every server class / entry point that takes a configuration, built with each version (harness/c13entries.py)
+    import c13entries
+    c13entries.stage(ctx, sys.modules[__name__], stats, lines, impl_out)
+
     # ---- one preemption at every package line executed while serving (line-granular interleavings)
     for version in (2.0, 1.0):
         preemption_sweep(ctx, stats, version, default_cfg, default_before)
@@ -614,6 +619,9 @@ def replay(payload):
     version = case.get("version", 2.0)
     reg = case.get("registry", "plain")
     default_cfg = impl.jsonrpclib.config.DEFAULT
+    if "entry_kind" in case:
+        import c13entries
+        return c13entries.replay(sys.modules[__name__], case)
     if "history" in case and case.get("via") == "do_POST":
         cts = case.get("content_types") or [None] * (len(case["history"]) + 1)
         disp, cfg = make_dispatcher(version, reg)
